@@ -33,6 +33,28 @@ fn run<T: U>(out: &mut Out, r: &mut Rng, n: usize) {
         let v = T::gen(r, 3);
         let t0 = m_case(out, &v);
         out.distinct(&(ty.clone(), v.sx()));
+        // hashing is a function of the VALUE: whatever this thread hashed in between (here: collections nested in
+        // collections, maps and sets, which exercise every scratch buffer of the hashable containers), the same value feeds
+        // the same stream again
+        if i % 3 == 0 {
+            let mut inner_m: HashableHashMap<u8, u8> = HashableHashMap::new();
+            for k in 0..(1 + r.below(3)) as u8 { inner_m.insert(k, r.below(5) as u8); }
+            let mut outer_m: HashableHashSet<HashableHashMap<u8, u8>> = HashableHashSet::new();
+            outer_m.insert(inner_m.clone());
+            let mut inner_s: HashableHashSet<u8> = HashableHashSet::new();
+            for _ in 0..(1 + r.below(3)) { inner_s.insert(r.below(7) as u8); }
+            let mut outer_s: HashableHashMap<u8, HashableHashSet<u8>> = HashableHashMap::new();
+            outer_s.insert(1, inner_s);
+            let _ = record(&outer_m);
+            let t1 = record(&v);
+            let _ = record(&outer_s);
+            let _ = record(&outer_m);
+            let t2 = record(&v);
+            out.stat("hash-again-after-other-values");
+            if t1 != t0 || t2 != t0 {
+                out.v("hash-depends-on-what-was-hashed-before", &format!("{} {}: stream {} first, then {} / {} after hashing a set of maps / a map of sets", ty, v.sx(), toks_sx(&t0), toks_sx(&t1), toks_sx(&t2)));
+            }
+        }
         // several builds of the same logical value
         for _ in 0..2 {
             let b = v.rebuild(r);
